@@ -503,6 +503,14 @@ func execRelayRules(k *sim.Kernel, pl RelayRulesPlan) {
 				k.Violate("C17.push-duplicate", "%d push sessions are open to target %s at once", open, addr)
 			}
 			pubGone := rr.pub.LeftStep >= 0
+			// a failed target is retried on later ticks for as long as the publisher stays
+			if !pubGone && !rr.pub.Closed && open == 0 && len(ps) > 0 {
+				last := ps[len(ps)-1]
+				if now := k.NowMs(); now-last.AtMs > 2600 {
+					k.Violate("C17.push-no-retry", "push to target %s failed (attempt at %d ms, target behaviour %q) and was not retried although the publisher is still there at %d ms", addr, last.AtMs, last.Mode, now)
+				}
+				k.Probe("c17_push_retry_judged")
+			}
 			if pubGone && open > 0 {
 				k.Violate("C17.push-not-ended", "the publisher left but the push session to %s is still open", addr)
 			}
@@ -814,6 +822,37 @@ func (rr *relayRulesRun) checkApiInvariants(k *sim.Kernel) {
 			if !stopped {
 				k.Violate("C17.stopped-with-consumer", "pull attempt #%d was closed by lal at %d ms while a consumer was present and no stop was requested", i, closed)
 			}
+		}
+		if auto > 0 && closed >= 0 && !inAny(rr.subIvl, closed) && o.Stub.Conn != nil && !o.Stub.PeerClosedFirst() {
+			// closed by lal with nobody watching: was it the auto-stop rule, and if so not before the stream had been
+			// without a consumer for the configured time (the rule is evaluated once per 1 s tick)
+			stopped := false
+			for _, a := range rr.apis {
+				if a.kind == "stop" && a.at <= closed && a.at >= o.AtMs {
+					stopped = true
+				}
+			}
+			// the window runs from the start request, or from the departure of the last consumer after it
+			lastGone := int64(0)
+			for _, a := range rr.apis {
+				if a.kind == "start" {
+					lastGone = a.at
+				}
+			}
+			// consumer presence is sampled once per 1 s tick: a consumer counts from the last tick that saw it
+			for _, s := range rr.subIvl {
+				if s.to < 0 || s.to > closed {
+					continue
+				}
+				seen := (s.to - 1) / 1000 * 1000 // last tick strictly before the departure ...
+				if seen > s.from && seen > lastGone { // ... and strictly after the arrival (same-millisecond orders are open)
+					lastGone = seen
+				}
+			}
+			if !stopped && closed-lastGone < int64(auto)-150 {
+				k.Violate("C17.auto-stop-early", "auto-stop is %d ms; the last consumer left at %d ms but lal closed pull attempt #%d already at %d ms (%d ms later)", auto, lastGone, i, closed, closed-lastGone)
+			}
+			k.Probe("c17_auto_stop_timing_judged")
 		}
 		if auto >= 0 && closed < 0 {
 			// when did the last consumer leave (or: never any since the attempt)?
